@@ -79,6 +79,13 @@ def c17_race_run(ctx, tier, seed):
         shutil.rmtree(hb, ignore_errors=True)
 
 PROPS = {
+    "C10": {
+        "level_text": "Machine-checked theorems (Lean 4 kernel, no axioms beyond propext/Quot.sound/choice) about a statement-by-statement model of nonce.go: the resettable hmacsha256 object returns HMAC-SHA256(k, data written since the last (Re)set) after newHMACSHA256/ResetKey/Reset in any state (invariant: ipad/opad are the pads of k); the key buffer is key||hash[||extra[||version]] with exactly the documented padding/truncation/zero-fill rules; NonceRFC6979 returns the (i+1)-th candidate in [1,N-1] of the RFC 6979 section 3.2 generator (spec written from the RFC) for every key, hash, extra, version and i; results are in range; Schnorr's tagged key material differs from ECDSA's for every (key, hash). SHA-256 is treated as an arbitrary function of fixed output length. Correspondence: the grid key 0..40 x hash 0..70 x extra {0,31,32,33} x version {0,15,16,17} x i <= 16 in shuffled call orders with repeats (purity), random operation sequences on the HMAC object through a hook, and the Lean SHA-256 against crypto/sha256 around the padding boundaries.",
+        "level_note": "Trusted: Lean kernel; crypto/sha256 (the Lean SHA-256 is diffed against it; the theorems hold for any compression function); the hand-written model mirrors nonce.go (validated on generated inputs). 'ECDSA and Schnorr nonces differ' is proved as 'the generators are keyed with different material'; that HMAC outputs then differ is a property of SHA-256. The candidate loop is modelled with fuel.",
+        "technique": "Lean 4 refinement proof (state machine vs RFC 2104/6979 specification, Secp.Props.C10) + differential correspondence incl. operation sequences on the HMAC object",
+        "trusted_base": COMMON_TRUST + ["crypto/sha256", "Model.Nonce mirrors nonce.go (hand-written)"],
+        "assumptions": ["termination: a candidate in [1,N-1] appears within the fuel (each candidate fails with probability < 2^-127)"],
+    },
     "C06": {
         "level_text": "Machine-checked theorems (Lean 4 kernel) about the word-level kernels of modnscalar.go as REGENERATED from /repo on every run (tools/gotr T1 -> Secp.Gen.ScalarIR, Go wrap-around semantics): the constantTime* helpers and accumulator96.Add/Rsh32 compute their specifications for all 32-bit operands (this pins the IR primitives to the helpers' own bodies); overflows = [value >= N]; reduce256; SetBytes reduces once, is canonical and reports overflow iff >= N; PutBytes is the big-endian value; Add2/NegateVal of canonical scalars are canonical and exact mod N (negating zero gives zero); IsOverHalfOrder iff > (N-1)/2; the 385- and 512-bit reductions and Mul2 are exact mod N and canonical for ALL 256-bit operands - including the third-fold carry that random tests hit with probability 2^-127. No-wrap of every intermediate is a reflective interval analysis decided by `decide +kernel` on the regenerated program; congruences by phased omega. Inversion is modelled as Fermat (ninv) and proved to be the inverse. Each regenerated kernel is also executed on raw words (boundary word classes, values near N, 2^256-N, N/2) and diffed against the real function.",
         "level_note": "Trusted: Lean kernel; tools/gotr T1 (regenerated every run and executed against the real kernels); Go integer semantics; math/big.ModInverse for InverseValNonConst (the model uses Fermat). reduce385 is proved on its documented domain (a 385-bit value): the statement for arbitrary 13 words is false and is recorded in DESIGN.md.",
